@@ -14,6 +14,7 @@ import TxdbusModel.Proofs.Auth.ClientSafety
 import TxdbusModel.Proofs.Auth.ClientTraces
 import TxdbusModel.Proofs.Auth.ClientLiveness
 import TxdbusModel.Proofs.Auth.ClientComplete
+import TxdbusModel.Proofs.Auth.ClientStrict
 import TxdbusModel.Auth.ClientOrig
 
 namespace Txdbus.AuthClient
@@ -37,6 +38,15 @@ ERROR.  For all line sequences, transports, environments and splittings into rea
 theorem begin_only_after_ok (pref : List Bytes) (unix : Bool) (envAt : Nat → Env) (chunks : List Bytes) :
     BeginsJustified unix (clientRun pref unix envAt chunks).trace :=
   (invB_clientRun pref unix envAt chunks).begins
+
+/-- Strict form: the OK that justifies a BEGIN answers the mechanism in progress - the client wrote no
+AUTH line between that OK and the BEGIN (an OK followed by REJECTED and a new AUTH is void), and on a
+UNIX transport NEGOTIATE_UNIX_FD and its answer lie after that OK.  It implies `begin_only_after_ok`
+(`JustifiedCurrent.justified`). -/
+theorem begin_only_after_ok_of_current_mechanism (pref : List Bytes) (unix : Bool) (envAt : Nat → Env)
+    (chunks : List Bytes) :
+    BeginsJustifiedCurrent unix (clientRun pref unix envAt chunks).trace :=
+  (invC_clientRun pref unix envAt chunks).begins
 
 /-- The client is authenticated (binary mode, `connectionAuthenticated()` ran) iff it sent BEGIN. -/
 theorem authenticated_iff_begin (pref : List Bytes) (unix : Bool) (envAt : Nat → Env) (chunks : List Bytes) :
@@ -258,6 +268,7 @@ end Txdbus.AuthClient
 #print axioms Txdbus.AuthClient.authDelimiter_table
 #print axioms Txdbus.AuthClient.maxAuthLength_table
 #print axioms Txdbus.AuthClient.begin_only_after_ok
+#print axioms Txdbus.AuthClient.begin_only_after_ok_of_current_mechanism
 #print axioms Txdbus.AuthClient.authenticated_iff_begin
 #print axioms Txdbus.AuthClient.OfferedInOrder.length_eq
 #print axioms Txdbus.AuthClient.mechanisms_once_in_order
